@@ -196,6 +196,17 @@ def _stmt_sql(st: str) -> str:
     if k == "I":
         t, kk, v = tl.split(".")
         return f"insert into db1.s1.t{t} (k, v) values ({kk}, {v})"
+    if k == "C":
+        t, c = tl.split(".")
+        return f"comment on table db1.s1.t{t} is 'c{c}'"
+    if k == "A":
+        t, c = tl.split(".")
+        return f"alter table db1.s1.t{t} set comment = 'c{c}'"
+    if k == "O":
+        t, c = tl.split(".")
+        return f"create or replace table db1.s1.t{t} (k int, v int) comment = 'c{c}'"
+    if k == "Z":
+        return "set v19 = 1"
     if k == "R":
         return f"select k, v, 'c19probe' as c19probe from db1.s1.t{tl}"
     if k == "W":
@@ -475,59 +486,83 @@ def _stress_round(args) -> dict:
 
 def _txconflict_round(spec) -> dict:
     """two sessions (one thread each, statements handed over one at a time, so this is deterministic) with overlapping
-    explicit transactions inserting the same PRIMARY KEY value; every session keeps a ledger of what it was TOLD"""
+    explicit transactions; every session keeps a ledger of what it was TOLD.  kinds:
+      samekey    – both insert the same PRIMARY KEY value into one table (the later COMMIT must raise)
+      difftables – they insert into DIFFERENT tables (nothing may fail), optionally on an instance with db_path
+      varchar    – they CREATE different tables with VARCHAR(n) columns, one of them inside its transaction (nothing may
+                   fail, the declared lengths must be recorded)"""
     import queue
+    import shutil
+    import tempfile
     import fakesnow
     import snowflake.connector
     told: dict[str, str] = {}
-    with fakesnow.patch():
-        main = snowflake.connector.connect(database="shared", schema="s0")
-        main.cursor().execute("create table shared.s0.pk (k int primary key, who varchar)")
-        conns = {n: snowflake.connector.connect(database="shared", schema="s0") for n in "ab"}
-        inbox = {n: queue.Queue() for n in "ab"}
-        outbox: queue.Queue = queue.Queue()
+    tmp = tempfile.mkdtemp(prefix="c19-") if spec.get("dbpath") else None
+    try:
+        with (fakesnow.patch(db_path=tmp) if tmp else fakesnow.patch()):
+            main = snowflake.connector.connect(database="shared", schema="s0")
+            mc = main.cursor()
+            mc.execute("create table shared.s0.pk (k int primary key, who varchar)")
+            mc.execute("create table shared.s0.pkb (k int primary key, who varchar)")
+            conns = {n: snowflake.connector.connect(database="shared", schema="s0") for n in "ab"}
+            inbox = {n: queue.Queue() for n in "ab"}
+            outbox: queue.Queue = queue.Queue()
 
-        def session(n: str):
-            cur = conns[n].cursor()
-            while True:
-                cmd = inbox[n].get()
-                if cmd is None:
-                    return
+            def session(n: str):
+                cur = conns[n].cursor()
+                while True:
+                    cmd = inbox[n].get()
+                    if cmd is None:
+                        return
+                    try:
+                        if cmd == "api-commit":
+                            conns[n].commit()
+                        else:
+                            cur.execute(cmd)
+                            cur.fetchall()
+                        outbox.put("ok")
+                    except Exception as e:  # noqa: BLE001
+                        outbox.put(f"raised {type(e).__name__}: {str(e)[:80]}")
+
+            ts = {n: threading.Thread(target=session, args=(n,), daemon=True) for n in "ab"}
+            [t.start() for t in ts.values()]
+
+            def do(n: str, cmd: str) -> str:
+                inbox[n].put(cmd)
                 try:
-                    if cmd == "api-commit":
-                        conns[n].commit()
-                    else:
-                        cur.execute(cmd)
-                        cur.fetchall()
-                    outbox.put("ok")
-                except Exception as e:  # noqa: BLE001
-                    outbox.put(f"raised {type(e).__name__}")
+                    return outbox.get(timeout=TURN_TIMEOUT)
+                except queue.Empty:
+                    raise common.Infra(f"session {n} did not answer `{cmd}` within {TURN_TIMEOUT}s") from None
 
-        ts = {n: threading.Thread(target=session, args=(n,), daemon=True) for n in "ab"}
-        [t.start() for t in ts.values()]
-
-        def do(n: str, cmd: str) -> str:
-            inbox[n].put(cmd)
-            try:
-                return outbox.get(timeout=TURN_TIMEOUT)
-            except queue.Empty:
-                raise common.Infra(f"session {n} did not answer `{cmd}` within {TURN_TIMEOUT}s") from None
-
-        k = spec["key"]
-        for n in spec["begin_order"]:
-            told[f"begin_{n}"] = do(n, "begin")
-        for n in spec["insert_order"]:
-            told[f"insert_{n}"] = do(n, f"insert into shared.s0.pk (k, who) values ({k}, '{n}'), ({k + (10 if n == 'a' else 20)}, '{n}')")
-        for n in spec["commit_order"]:
-            told[f"commit_{n}"] = do(n, "api-commit" if spec["api"] else "commit")
-            if told[f"commit_{n}"] != "ok":
-                do(n, "rollback")
-        for n in "ab":
-            inbox[n].put(None)
-        cur = main.cursor()
-        cur.execute("select k, who from shared.s0.pk")
-        rows = sorted(cur.fetchall())
-    return {"told": told, "rows": [list(r) for r in rows]}
+            k, kind = spec["key"], spec["kind"]
+            commit = "api-commit" if spec["api"] else "commit"
+            if kind == "varchar":
+                a, b = spec["commit_order"][0], spec["commit_order"][1]     # a works inside a transaction, b in autocommit
+                told[f"begin_{a}"] = do(a, "begin")
+                told[f"create_{a}"] = do(a, f"create table shared.s0.v{a} (k int, s varchar({k + 3}))")
+                told[f"create_{b}"] = do(b, f"create table shared.s0.v{b} (k int, s varchar({k + 13}))")
+                told[f"commit_{a}"] = do(a, commit)
+            else:
+                tbl = {"a": "pk", "b": "pk" if kind == "samekey" else "pkb"}
+                for n in spec["begin_order"]:
+                    told[f"begin_{n}"] = do(n, "begin")
+                for n in spec["insert_order"]:
+                    told[f"insert_{n}"] = do(n, f"insert into shared.s0.{tbl[n]} (k, who) values ({k}, '{n}'), ({k + (10 if n == 'a' else 20)}, '{n}')")
+                for n in spec["commit_order"]:
+                    told[f"commit_{n}"] = do(n, commit)
+                    if told[f"commit_{n}"] != "ok":
+                        do(n, "rollback")
+            for n in "ab":
+                inbox[n].put(None)
+            mc.execute("select k, who from shared.s0.pk union all select k, who from shared.s0.pkb")
+            rows = sorted(mc.fetchall())
+            mc.execute("select table_name, character_maximum_length from information_schema.columns "
+                       "where table_schema = 'S0' and column_name = 'S' order by 1")
+            lens = [list(r) for r in mc.fetchall()]
+        return {"told": told, "rows": [list(r) for r in rows], "lens": lens}
+    finally:
+        if tmp:
+            shutil.rmtree(tmp, ignore_errors=True)
 
 
 def _txconflict_worker(shard):
@@ -544,21 +579,36 @@ def _txconflict_worker(shard):
 def _check_txconflict(chk, spec, r) -> None:
     case = {"name": "txconflict", "spec": spec}
     chk.case(("txconflict", json.dumps(spec, sort_keys=True)), nontrivial=True, sample=case)
-    chk.count("scenario:txconflict")
-    told, k = r["told"], spec["key"]
+    chk.count("scenario:tx-" + spec["kind"] + ("-dbpath" if spec.get("dbpath") else ""))
+    told, k, kind = r["told"], spec["key"], spec["kind"]
+    where = " on an instance with db_path" if spec.get("dbpath") else ""
+    if kind == "varchar":
+        a, b = spec["commit_order"][0], spec["commit_order"][1]
+        want = sorted([[f"V{a.upper()}", k + 3], [f"V{b.upper()}", k + 13]])
+        failed = {s_: t for s_, t in told.items() if t != "ok"}
+        if failed or r["lens"] != want:
+            chk.violation(f"two sessions{where} creating DIFFERENT tables with VARCHAR(n) columns (session {a} inside BEGIN…COMMIT: VARCHAR({k + 3}); "
+                          f"session {b} in autocommit: VARCHAR({k + 13})): the sessions were told {told}; recorded lengths {r['lens']}, declared {want} "
+                          f"(in every one-at-a-time order nothing fails and both lengths are recorded)", case,
+                          broken="C19 no statement fails because of a race / multi-call CREATE TABLE not torn")
+        return
     promised = []
     for n in "ab":
         if told.get(f"insert_{n}") == "ok" and told.get(f"commit_{n}") == "ok":
             promised += [[k, n], [k + (10 if n == "a" else 20), n]]
     found = r["rows"]
+    desc = (f"two sessions{where} with overlapping transactions inserting "
+            f"{'the same PRIMARY KEY ' + str(k) if kind == 'samekey' else 'into DIFFERENT tables'} (begin {spec['begin_order']}, insert "
+            f"{spec['insert_order']}, commit {spec['commit_order']} via {'conn.commit()' if spec['api'] else 'COMMIT'}): the sessions were told {told}; "
+            f"the tables hold {found}")
     if sorted(promised) != sorted(found):
         lost = [x for x in promised if x not in found]
         extra = [x for x in found if x not in promised]
-        chk.violation(f"two sessions with overlapping transactions inserting the same PRIMARY KEY {k} (begin {spec['begin_order']}, insert "
-                      f"{spec['insert_order']}, commit {spec['commit_order']} via {'conn.commit()' if spec['api'] else 'COMMIT'}): the sessions were "
-                      f"told {told}; the table holds {found} - rows of sessions told 'committed' that are lost: {lost}; rows present although their "
-                      f"session was told the COMMIT failed: {extra} (in every one-at-a-time order the second INSERT of key {k} fails, nothing is lost)",
-                      case, broken="C19 no lost inserts (what a session is told vs the table)")
+        chk.violation(f"{desc} - rows of sessions told 'committed' that are lost: {lost}; rows present although their session was told the "
+                      f"COMMIT failed: {extra}", case, broken="C19 no lost inserts (what a session is told vs the table)")
+    elif kind == "difftables" and any(t != "ok" for t in told.values()):
+        chk.violation(f"{desc} - a statement failed although the sessions touch different tables (in every one-at-a-time order all succeed)",
+                      case, broken="C19 no statement fails because of a race")
 
 
 def _stress_statements_round(args) -> dict:
@@ -569,11 +619,15 @@ def _stress_statements_round(args) -> dict:
     import sys as _sys
     import fakesnow
     import snowflake.connector
-    nthreads, nstmts, nrows, seed = args
+    nthreads, nstmts, nrows, seed = args[:4]
+    dbpath = len(args) > 4 and bool(args[4])     # instance with db_path, every INSERT inside its own BEGIN … COMMIT
     errs: list[str] = []
     wrong: list[str] = []
     old = _sys.getswitchinterval()
-    with fakesnow.patch():
+    import shutil as _shutil
+    import tempfile as _tempfile
+    tmp = _tempfile.mkdtemp(prefix="c19-") if dbpath else None
+    with (fakesnow.patch(db_path=tmp) if tmp else fakesnow.patch()):
         main = snowflake.connector.connect(database="shared", schema="s0")
         mc = main.cursor()
         conns = []
@@ -595,8 +649,14 @@ def _stress_statements_round(args) -> dict:
                 cur = conns[tid].cursor()
                 for j in range(nstmts):
                     vals = ", ".join(f"({tid}, {j * nrows + r}, 'session {tid} row {r} (x)')" for r in range(nrows))
+                    if dbpath:
+                        cur.execute("begin")
                     cur.execute(f"insert into shared.s0.p{tid} (tid, n, txt) values {vals}")
                     got = cur.fetchall()
+                    if dbpath:
+                        cur.execute("commit")
+                    cur.execute(f"comment on table shared.s0.p{tid} is 'c{tid}.{j}'")
+                    cur.execute(f"create or replace table shared.s0.r{tid} (k int, s varchar({10 + tid}))")
                     if got != [(nrows,)]:
                         wrong.append(f"session {tid} statement {j}: INSERT of {nrows} rows answered {got!r}")
                 # every session also MERGEs into its own second table (same schema as the others' MERGEs)
@@ -604,6 +664,7 @@ def _stress_statements_round(args) -> dict:
                     cur.execute(f"merge into m{tid} using (select {j} as n, 'merged by {tid}' as txt) as src on m{tid}.n = src.n "
                                 f"when matched then update set txt = src.txt when not matched then insert (tid, n, txt) values ({tid}, src.n, src.txt)")
                     cur.fetchall()
+                    cur.execute(f"alter table shared.s0.m{tid} set comment = 'a{tid}.{j}'")
             except Exception as e:  # noqa: BLE001
                 errs.append(f"session {tid}: {type(e).__name__}: {str(e)[:120]}")
 
@@ -630,6 +691,18 @@ def _stress_statements_round(args) -> dict:
                 want = [(t, j, f"merged by {t}") for j in range(3)]
                 if got != want:
                     wrong.append(f"table m{t} after session {t}'s three MERGEs: {got}; expected {want}")
+            mc.execute("select table_name, comment from information_schema.tables where table_schema = 'S0' and table_name not in ('R0','R1','R2','R3') order by 1")
+            got = [list(x) for x in mc.fetchall()]
+            want = sorted([[f"M{t}", f"a{t}.2"] for t in range(nthreads)] + [[f"P{t}", f"c{t}.{nstmts - 1}"] for t in range(nthreads)])
+            if got != want:
+                wrong.append(f"table comments {got}; every session commented only its own tables: expected {want}")
+            mc.execute("select table_name, character_maximum_length from information_schema.columns where table_schema = 'S0' and column_name = 'S' order by 1")
+            got = [list(x) for x in mc.fetchall()]
+            want = [[f"R{t}", 10 + t] for t in range(nthreads)]
+            if got != want:
+                wrong.append(f"VARCHAR lengths of the tables created with CREATE OR REPLACE: {got}; declared {want}")
+    if tmp:
+        _shutil.rmtree(tmp, ignore_errors=True)
     return {"errs": errs, "wrong": wrong, "seed": seed}
 
 
@@ -637,9 +710,9 @@ def _stress_statements_worker(shard):
     _warm()
     out = []
     for a in shard:
-        r = _forked(_stress_statements_round, a, 240.0)
+        r = _forked(_stress_statements_round, a, 300.0)
         if "timeout" in r:
-            raise common.Infra(f"statement stress round (seed {a[3]}) did not finish within 240 s")
+            raise common.Infra(f"statement stress round (seed {a[3]}) did not finish within 300 s")
         if "crashed" in r:
             out.append({"errs": [r["crashed"]], "wrong": [], "seed": a[3]})
             continue
@@ -691,6 +764,9 @@ SCENARIOS = [
     # two sessions each running a MERGE (different targets, same schema): the candidates table must be private to each
     ("two-merges", BASE + ",T1:1.1,T2:1.1", [["G1.1.10.2.20"], ["G2.1.30.3.40"]], [1, 2], TT),
     ("two-merges-after-insert", BASE + ",T1:1.1,T2:1.1", [["I1.5.5", "G1.1.10.2.20", "R1"], ["I2.6.6", "G2.1.30.3.40", "R2"]], [1, 2], TT),
+    # COMMENT ON / ALTER … SET COMMENT of one session must not leak into later statements of any session (shared AST residue)
+    ("comments-then-noops", BASE + ",T1,T2", [["C1.1", "Z", "W2"], ["A2.2", "O2.5", "Z", "W2"]], [1, 2], TT),
+    ("comments-cross", BASE + ",T1,T2", [["A1.3", "O1.7", "Z", "W1"], ["C2.4", "Z", "W1", "W2"]], [1, 2], TT),
     # sessions opened without database/schema (every connection must still get its own engine connection)
     ("sessions-without-database", BASE + ",T0:9.9", [["N-", "I0.1.1", "R0"], ["N-", "I0.2.2", "R0"]], [0], TT),
 ]
@@ -833,27 +909,29 @@ def run(chk) -> None:
     # overlapping transactions with the same PRIMARY KEY (deterministic hand-over after every statement)
     rnd = random.Random(chk.seed + 7)
     specs = []
-    for i in range(4 if chk.tier == "quick" else 16):
+    for i in range(8 if chk.tier == "quick" else 32):
         first = rnd.choice("ab")
-        specs.append({"key": rnd.randrange(1, 9), "begin_order": rnd.choice(["ab", "ba"]), "insert_order": rnd.choice(["ab", "ba"]),
-                      "commit_order": first + ("b" if first == "a" else "a"), "api": i % 2 == 1})
+        kind = ("samekey", "difftables", "varchar", "difftables")[i % 4]
+        specs.append({"kind": kind, "dbpath": kind == "difftables" or i % 8 >= 4, "key": rnd.randrange(1, 9),
+                      "begin_order": rnd.choice(["ab", "ba"]), "insert_order": rnd.choice(["ab", "ba"]),
+                      "commit_order": first + ("b" if first == "a" else "a"), "api": (i // 4) % 2 == 1})
     tres = [r for sh in common.shard_map(_txconflict_worker, common.chunks(specs, 4), procs=4) for r in sh]
     for spec, r in zip([x for sh in common.chunks(specs, 4) for x in sh], tres):
         _check_txconflict(chk, spec, r)
     # free-running statement stress: thread switches inside fakesnow's own (pure Python) statement processing
     srounds = 4 if chk.tier == "quick" else 24
-    sargs = [(4, 5, 30, chk.seed * 1000 + i) for i in range(srounds)]
+    sargs = [(4, 5, 30, chk.seed * 1000 + i, i % 2) for i in range(srounds)]     # every other round: db_path + explicit transactions
     sres = [r for sh in common.shard_map(_stress_statements_worker, common.chunks(sargs, 8), procs=8) for r in sh]
     sbad = [r for r in sres if r["errs"] or r["wrong"]]
     chk.count("statement-stress-rounds", len(sres))
     chk.extra["statement_stress"] = {"rounds": len(sres), "threads": 4, "failed_rounds": len(sbad)}
     if sbad:
         b = sbad[0]
-        chk.violation(f"free-running statement stress (4 sessions, each 5 INSERTs of 30 rows and 3 MERGEs into its OWN tables, switch interval 1e-5): "
+        chk.violation(f"free-running statement stress (4 sessions, each 5 INSERTs of 30 rows and 3 MERGEs, COMMENT ON / ALTER SET COMMENT and CREATE OR REPLACE TABLE … VARCHAR(n) on its OWN tables, switch interval 1e-5; every other round on a db_path instance with explicit transactions): "
                       f"{len(sbad)}/{len(sres)} rounds failed; first (seed {b['seed']}): exceptions={b['errs'][:3]} wrong results={b['wrong'][:3]} "
                       f"- in every one-at-a-time order each INSERT answers 30 and each table ends with 150 rows of its own session "
                       f"(non-deterministic stress finding: re-run the replay a few times)",
-                      {"name": "statement-stress", "args": [4, 5, 30, b["seed"]], "nondeterministic": True},
+                      {"name": "statement-stress", "args": [4, 5, 30, b["seed"], b["seed"] % 2], "nondeterministic": True},
                       broken="C19 free-running statement stress (a statement fails or is mixed with another session's because of a race)")
     chk.rule = ("real threads under a deterministic turn-based scheduler (yield points = the model's engine calls and the connect lock); "
                 "scenarios: concurrent connects auto-creating the same database/schema, connect + DML, single-call statements on a shared "
@@ -874,7 +952,7 @@ def replay(chk, case) -> None:
     if case.get("name") == "statement-stress":
         bad = 0
         for k in range(5):   # non-deterministic: try a few times
-            r = _stress_statements_worker([tuple(case["args"][:3]) + (case["args"][3] + k,)])[0]
+            r = _stress_statements_worker([tuple(case["args"][:3]) + (case["args"][3] + 2 * k,) + tuple(case["args"][4:])])[0]
             bad += bool(r["errs"] or r["wrong"])
             if bad:
                 chk.violation(f"statement stress failed again (attempt {k + 1}): {r['errs'][:2]} {r['wrong'][:2]}", case,
